@@ -36,6 +36,10 @@ def peer_datagram(p, who, kind):
     me, peer = (p.a, p.b) if who == 'A' else (p.b, p.a)
     PE = p.B if who == 'A' else p.A
     other = 'B' if who == 'A' else 'A'
+    if kind == 'auth_req':
+        # `who` (B) is in INIT_RES_SENT: its last datagram is the IKE_SA_INIT response; A answers with IKE_AUTH
+        d = p.send('A', p.b.last_sent_response_data)
+        return d, p.a.my_crypto
     if kind == 'response':
         # the genuine answer to my outstanding request
         out = p.outstanding
